@@ -19,7 +19,7 @@ CONSTANTS
   MaxClock = @@MAXCLOCK@@
   MaxTotal = @@MAXTOTAL@@
   MaxPend = 2
-  MaxAdm = 4
+  MaxAdm = @@MAXADM@@
   Acts = @@ACTS@@
   Atomic = @@ATOMIC@@
   Fixed = @@FIXED@@
